@@ -136,7 +136,9 @@ CLAIMED = {
         technique="Coq proof over Q (lra, Qround monotonicity lemmas, invariants over label lists) + label-by-label correspondence against SessionBase",
         ref='6/C14'),
     'C20': dict(
-        text=("Proof (partial): the recalibration function over exact rationals: for every current limit 1..250 and EVERY "
+        text=("Proof (partial): the arithmetic of _recalc_concurrency (cap, floor, both branches of `if avg != 0`, the rounding) is "
+              "TRANSLATED from the Python source on every run and shown to be the model's clamp / round_half_up. "
+              "The recalibration function over exact rationals: for every current limit 1..250 and EVERY "
               "response-time average and target response time the new limit lies between two functions of the current limit "
               "alone (monotonicity of rounding), and a kernel-evaluated table over the finite domain 1..250 lifts to: new limit "
               "in 1..250, rise <= ceil(max(3,10%)), fall <= ceil(max(1,20%)); hence every limit of every recalibration history "
